@@ -191,12 +191,18 @@ def _cd_closure(f, bid, limit=40):
     return out
 
 
-def _absval_of(f, o):
+def _absval_of(f, o, _depth=0):
     """if operand o is |x| (fabs / llvm.fabs / ?_abs1 of a loaded or addressed element) return the index value of that element, else None"""
     o = strip_casts(f, o)
     if o[0] != "v":
         return None
     c = f.inst[o[1]]
+    if c.op == "phi" and not _depth:
+        # (found ? |x| : 0.0): a zero fails the '!= 0' clause of the policy, so passing both clauses means the value was |x|
+        vals = [_absval_of(f, x, 1) for x in c.ops if not (strip_casts(f, x)[0] == "f" and strip_casts(f, x)[1] == 0.0)]
+        if len(vals) == 1 and vals[0] and len(c.ops) == 2:
+            return vals[0]
+        return None
     if c.op != "call" or not c.callee:
         return None
     if not (c.callee.startswith("llvm.fabs") or c.callee in ("fabs", "fabsf", "c_abs1", "z_abs1", "c_abs", "z_abs")):
